@@ -55,6 +55,7 @@ Init ==
     ended |-> FALSE,        \* the run is over: what follows is the harness tearing things down
     router |-> FALSE,       \* the publish service is a topic router with resources "a" and "b"
     noCtl |-> FALSE,        \* the endpoint variant has no observable connection-control service
+    readers |-> {},         \* handlers whose payload is read by a task of its own that has not finished yet
     strict |-> 0            \* > 0: the generator sends nothing the monitor cannot classify; a protocol-error stop the
                             \* monitor did not ask for is then a violation of property C<strict>
   ]
@@ -442,13 +443,16 @@ OnCtl(m, ev) ==
 \* final{s: gates still open, n: bytes the endpoint has not read}: every gate the harness could
 \* open was opened with outcome ok, to a fixpoint
 OnFinal(m, ev) ==
-  IF m.needProto /\ m.noCtl /\ m.est /\ ev.s = 0
+  IF m.readers # {} /\ m.connDone
+    THEN \* the connection is gone and a payload reader is still waiting: it got neither the rest nor an error
+         Fail(m, "C07:payload-reader-left-hanging-after-the-connection-ended")
+  ELSE IF m.needProto /\ m.noCtl /\ m.est /\ ev.s = 0
     THEN (IF m.connDone THEN m ELSE Fail(m, m.needWhy))
   ELSE IF m.needProto /\ ~m.stopProto /\ m.est /\ m.cause \in {"none", "proto"} /\ ev.s = 0
     THEN \* (an error result may wait in the ordered response queue until the handlers ahead
          \*  of it complete: the protocol-error stop is due once every gate was opened)
          Fail(m, m.needWhy)
-  ELSE IF m.est /\ m.expectStop # "none" /\ m.stops = 0
+  ELSE IF m.est /\ m.expectStop # "none" /\ m.stops = 0 /\ ~m.noCtl
     THEN Fail(m, "C07:no-stop-notification")
   ELSE IF ~Healthy(m) THEN
      (IF m.est /\ (m.stops > 0 \/ m.expectStop # "none") /\ ~m.connDone /\ ev.s = 0
@@ -493,6 +497,10 @@ Step(m, ev) ==
     [] ev.e = "ctl_done" -> [m EXCEPT !.ctlDone = TRUE]
     [] ev.e = "pollall_done" ->
          IF m.est /\ m.connDone /\ ev.s # 0 THEN Fail(m, "C07:send-future-left-pending-after-teardown") ELSE m
+    [] ev.e = "reader_start" -> [m EXCEPT !.readers = @ \cup {ev.s}]
+    [] ev.e = "h_read" /\ ev.s \in m.readers /\ ~(LET i == IdxOf(m.pubs, LAMBDA p : p.h = ev.s /\ p.h # 0) IN
+                                                  i > 0 /\ ev.r = 0 /\ ev.n >= 0 /\ ev.n < m.pubs[i].size) ->
+         [m EXCEPT !.readers = @ \ {ev.s}]
     [] ev.e = "h_read" ->
          \* a payload reader finished: complete only if it got every declared byte, and the bytes
          \* are the ones that were sent
